@@ -53,6 +53,7 @@ package connector
 
 // Deferred acks are delivered in queue (FIFO) order.
 //verif:func (*Source).deliverDeferredAcks(s)
+//verif:store[queue-handed-over-not-shared] deferredAckQueue requires isnil(newval) && called("(*Mutex).Lock") && since("(*Mutex).Unlock", "(*Mutex).Lock") == 0
 //verif:loop 1 vars j
 //verif:call[fifo] (*Source).deliverOneAck requires 0 <= j + 1 && j + 1 < len(queue) && len(arg1) == len(queue[j + 1])
 
